@@ -165,3 +165,35 @@ pub fn cells_as_indices<const D: usize>(s: &Snap<D>, pts: &[[f64; D]]) -> Option
     out.sort();
     Some(out)
 }
+
+/// Valid triangulations of (subsets of) `pts` reachable through the public API: the batch-constructed one,
+/// every valid state of its flip closure (cap-bounded), the incremental (input-order) build, and the
+/// valid results of removing each vertex. Each comes with a short provenance label.
+pub fn state_corpus<K: Kernel<D, Scalar = f64>, const D: usize>(pts: &[[f64; D]], closure_cap: usize) -> Vec<(String, DtI<K, D>)> {
+    let mut out: Vec<(String, DtI<K, D>)> = Vec::new();
+    if let Some(seed) = build::<K, D>(pts, TopologyGuarantee::PLManifold) {
+        let cl = flip_closure(&seed, false, closure_cap);
+        for (dt, valid, dist) in cl.states {
+            if valid {
+                out.push((format!("flip_closure(dist={dist})"), dt));
+            }
+        }
+        for v in 0..seed.number_of_vertices() {
+            let mut d = seed.clone();
+            if let Outcome::Ok { .. } = model::apply(&mut d, &Op::Remove { v }, &[]) {
+                if is_valid_triangulation(&d) {
+                    out.push((format!("after_remove({v})"), d));
+                }
+            }
+        }
+    }
+    let mut d: DtI<K, D> = DelaunayTriangulation::with_empty_kernel(K::default());
+    let alphabet: Vec<[f64; D]> = pts.to_vec();
+    for p in 0..alphabet.len() {
+        let _ = model::apply(&mut d, &Op::Insert { p, uid: p as u32, stats: false }, &alphabet);
+    }
+    if is_valid_triangulation(&d) {
+        out.push(("incremental".to_string(), d));
+    }
+    out
+}
